@@ -84,6 +84,7 @@ Inv_C08(e) ==
       [] OTHER -> TRUE
 
 SweepPredicted(e) ==        \* indices of the last words that complete prefix e.prefix to a valid sentence
+    IF ~WordCountOK(Len(e.prefix) + 1) THEN {} ELSE        \* no word completes a sentence of another length
     LET n == Len(e.prefix) + 1  cs == n \div 3  tb == 11 - cs
         pbits == FlattenSeq([i \in 1..(n - 1) |-> Bits11(e.prefix[i])])
     IN { t * (2^cs) + BitsToNat(Checksum(BitsToBytes(pbits \o SubSeq(Bits11(t * (2^cs)), 1, tb)))) : t \in 0..(2^tb - 1) }
@@ -112,6 +113,7 @@ Inv_C15(e) ==
                 /\ \E t \in UnknownTokens(e.in, e.lang) : HasInfix(e.err.msg, t))
         /\ (d # {} => ~e.err.nil)
         /\ (e.err.nil => d = {})
+InvN_C15(e) == e.op = "Check" /\ IsSupported(e.lang) /\ e.err.nil => WellFormed(e.in, e.lang)     \* nil only for valid sentences, whatever the spelling
 InvS_C15(e) == e.op = "Sweep" =>                \* a nil error only for valid sentences: of 2048 last words exactly the predicted ones
     {e.accepted[i] : i \in 1..Len(e.accepted)} \subseteq SweepPredicted(e)
 InvR_C15(e) == e.op = "Recheck" /\ e.kind = "error" => e.same        \* ... and an error keeps saying what it said when it was returned
@@ -171,8 +173,12 @@ Inv_C16(e) == /\ (e.op = "String" => NoCrash(e) /\ e.out = LangNameOf(e.n.neg, e
 
 SeedOK(e)  == /\ e.seed = Seed(e.m, e.p) /\ e.len = 64 /\ ~e.aliased
               /\ (e.alias_checked => e.seed2 = e.seed /\ (Has(e, "seed3") => e.seed3 = e.seed))   \* derived again, also after the caller wiped the first result
-SeedF3(e)  == HasLongRun(e.m, e.p) /\ e.seed = StreamSafeSeed(e.m, e.p) /\ e.len = 64 /\ ~e.aliased
-Inv_C04(e) == e.op = "ToSeed" => NoCrash(e) /\ (SeedOK(e) \/ SeedF3(e))
+\* (the stream-safe model is evaluated on texts of moderate size only - the probes for F3 are short; on a longer text
+\* a deviation is a violation, not a known finding: the harness puts no run of more than 25 non-starters into those)
+F3Sized(e) == Len(e.m) + Len(e.p) <= 6000
+SeedF3(e)  == F3Sized(e) /\ HasLongRun(e.m, e.p) /\ e.seed = StreamSafeSeed(e.m, e.p) /\ e.len = 64 /\ ~e.aliased
+Inv_C04(e) == /\ (e.op = "ToSeed" => NoCrash(e) /\ (SeedOK(e) \/ SeedF3(e)))
+              /\ (e.op = "Recheck" /\ e.kind = "seed" => e.same)       \* ... and it is still that value when the caller looks again
 KF_C04(e)  == e.op = "ToSeed" /\ ~SeedOK(e) /\ SeedF3(e)
 
 \* C10 / C11: events of one group are consecutive, carry the same group id,
@@ -183,9 +189,10 @@ GroupInfra(e) == Has(e, "group") /\ InGroup(e) /\ FormOf(e) # grp.form
 Inv_C10(e) == /\ (e.op = "Check" /\ InGroup(e) /\ FormOf(e) = grp.form => (e.err.nil <=> grp.res))
               \* "in particular every valid mnemonic is accepted in each of these spellings"
               /\ (e.op = "Check" /\ Has(e, "group") /\ IsSupported(e.lang) /\ Canonical(e.in, e.lang) => e.err.nil)
-F3Group(e) == HasLongRun(e.m, e.p)
-Inv_C11(e) == e.op = "ToSeed" /\ InGroup(e) /\ FormOf(e) = grp.form =>
-                  (e.seed = grp.res \/ (F3Group(e) /\ e.seed = StreamSafeSeed(e.m, e.p)))
+F3Group(e) == F3Sized(e) /\ HasLongRun(e.m, e.p)
+Inv_C11(e) == /\ (e.op = "ToSeed" /\ InGroup(e) /\ FormOf(e) = grp.form =>
+                  (e.seed = grp.res \/ (F3Group(e) /\ e.seed = StreamSafeSeed(e.m, e.p))))
+              /\ (e.op = "Recheck" /\ e.kind = "seed" => e.same)       \* equal seeds stay equal: none changes after it was handed out
 KF_C11(e)  == e.op = "ToSeed" /\ InGroup(e) /\ FormOf(e) = grp.form /\ e.seed # grp.res
                   /\ F3Group(e) /\ e.seed = StreamSafeSeed(e.m, e.p)
 
@@ -260,7 +267,7 @@ Holds(p, e) ==
       [] p = "C04" -> Inv_C04(e) [] p = "C05" -> Inv_C05(e) [] p = "C06" -> Inv_C06(e)
       [] p = "C07" -> Inv_C07(e) [] p = "C08" -> Inv_C08(e) [] p = "C09" -> Inv_C09(e)
       [] p = "C10" -> Inv_C10(e) [] p = "C11" -> Inv_C11(e) [] p = "C13" -> Inv_C13(e)
-      [] p = "C14" -> Inv_C14(e) [] p = "C15" -> Inv_C15(e) /\ InvR_C15(e) /\ InvS_C15(e) [] p = "C16" -> Inv_C16(e)
+      [] p = "C14" -> Inv_C14(e) [] p = "C15" -> Inv_C15(e) /\ InvR_C15(e) /\ InvS_C15(e) /\ InvN_C15(e) [] p = "C16" -> Inv_C16(e)
       [] p = "C17" -> Inv_C17(e) [] p = "C12" -> Inv_C12(e) [] p = "XNFKD" -> Inv_XNFKD(e) [] OTHER -> TRUE
 KnownF(p, e) == (p = "C04" /\ KF_C04(e)) \/ (p = "C11" /\ KF_C11(e))
 
@@ -298,7 +305,8 @@ ProcStep(e) ==
                                      ELSE UNCHANGED procVars
       [] e.op \in {"Read", "OSRandom"} -> IF Guard_ReadStep THEN ReadStep(e.bytes, IF e.op = "Read" THEN e.errkind ELSE "")
                                           ELSE UNCHANGED procVars
-      [] e.op = "NewMnemonic" -> IF pc \in {"reading", "rejected"} THEN ReturnNewMnemonic ELSE UNCHANGED procVars
+      [] e.op \in {"NewMnemonic", "NewMnemonicAborted"} ->      \* (aborted: the source panicked and the caller recovered)
+            IF pc \in {"reading", "rejected"} THEN ReturnNewMnemonic ELSE UNCHANGED procVars
       [] OTHER -> UNCHANGED procVars
 
 ProtocolBreak(e) ==
